@@ -180,6 +180,17 @@ CLAIMED = {
         text="Three-way agreement on the lattice with TLC as oracle (10 functions); off the lattice the vendored reference "
              "is the oracle the property itself names. Random differential testing, exhaustive only on the lattice cases.",
         note="TLC exact integer arithmetic; vendored modern_robotics 1.1.1 core.py (sha256 pinned)"),
+    "C08": dict(
+        level="model_checking", design="3/C08",
+        technique="TLA+ spec Dynamics.tla over MRExact.tla: TLC checks D1 (mass matrix symmetric/positive), D2 (M = sum "
+                  "J^T G J), D3 (forward inverts inverse dynamics, division-free), D5 (torque decomposition) on every lattice "
+                  "case through the Newton-Euler state machine and exports exact values replayed into fmr.* and the Arm "
+                  "methods; the same laws plus D4 (all inverse-dynamics implementations agree), D6 passivity, D7 gravity = "
+                  "grad potential and energy drift on random chains as a law trace decided by TLC (LawTrace.tla)",
+        text="Exact on the lattice (TLC is the oracle); off it the identities are evaluated on the real code for chains of "
+             "1..7 joints with physically structured inertias, finite-difference identities at 1e-6, algebraic ones at "
+             "1e-8; arms built through the public setters.",
+        note="TLC exact integer arithmetic; RefEval link poses / potential; finite differences for D6, D7, energy"),
 }
 
 NOT_YET = "check not built yet in this round (planned: see DESIGN.md section 3)"
